@@ -9,7 +9,7 @@ PID = "C07"
 ANCHORS = ["pyoma2.functions.fdd:EFDD_mpe", "pyoma2.functions.fdd:SDOF_bellandMS", "pyoma2.functions.fdd:FDD_mpe", "pyoma2.algorithms.fdd:EFDD.mpe"]
 REQUIRED_MONITORS = ["truth@EFDD_mpe(EFDD)", "truth@EFDD_mpe(FSDD)", "scale-invariance(EFDD)", "scale-invariance(FSDD)", "truth@EFDD.mpe(class)", "truth@FSDD.mpe(class)"]
 ALL_STATES = [f"nxseg={n}" for n in (1024, 2048, 4096, 8192)] + ["xi<3%", "xi>4%", "fn<0.08fs", "fn>0.2fs", "bandwidth<6 lines", "same array object analysed twice with different content"]
-REQUIRED_STATES = ["as many requests as channels", "analysis band wider than the natural frequency (reaches below 0 Hz)", "fs below 0.3 Hz (slow monitoring record)", "fs above 3 kHz", "EFDD_mpe called with method / DF1 / DF2 by position", "nxseg=1024", "nxseg=2048", "nxseg=4096", "xi<3%", "xi>4%", "same array object analysed twice with different content", "Fortran-ordered spectral matrix", "pick given as an integer", "class created with the default estimator"]
+REQUIRED_STATES = ["edge sweep: damping 2 % / 5 %, band of exactly four bandwidths", "as many requests as channels", "analysis band wider than the natural frequency (reaches below 0 Hz)", "fs below 0.3 Hz (slow monitoring record)", "fs above 3 kHz", "EFDD_mpe called with method / DF1 / DF2 by position", "nxseg=1024", "nxseg=2048", "nxseg=4096", "xi<3%", "xi>4%", "same array object analysed twice with different content", "Fortran-ordered spectral matrix", "pick given as an integer", "class created with the default estimator"]
 RULE = ("exactly the quantifier's class: analytic SDOF spectral density |H(f)|^2 phi phi^T + 1e-9 full-rank floor on the grid k fs/nxseg, fn in "
         "[0.04,0.25] fs, xi in [2,5] %, half-power bandwidth >= 4 lines, >= 30 periods in the half record, 2..6 channels, real shapes, "
         "DF2 in [4,10] bandwidths, default sppk/npmax/MAClim; oracle = the statement's numbers (MAC >= 0.999, 2.5 % frequency, 15 % damping) "
@@ -29,12 +29,13 @@ def cases(tier, seed):
 
 
 def _cases(tier, seed):
-    n1, n2, n3 = (140, 24, 12) if tier == "quick" else (1500, 200, 120)
+    n1, n2, n3 = (400, 24, 12) if tier == "quick" else (3000, 200, 120)
+    ne = 600 if tier == "quick" else 6000
     return ([{"cls": "function", "k": k} for k in range(n1)] + [{"cls": "classes", "k": k} for k in range(n2)]
-            + [{"cls": "reused_buffer", "k": k} for k in range(n3)])
+            + [{"cls": "reused_buffer", "k": k} for k in range(n3)] + [{"cls": "edge_sweep", "k": 20000 + k, "edge": [k, ne // 4]} for k in range(ne)])
 
 
-def draw(rng, nxs=(1024, 2048, 4096, 8192)):
+def draw(rng, nxs=(1024, 2048, 4096, 8192), edge=None):
     for _ in range(1000):
         nxseg = int(rng.choice(nxs))
         fs = float(10 ** rng.uniform(0, 3))
@@ -45,10 +46,23 @@ def draw(rng, nxs=(1024, 2048, 4096, 8192)):
         if fs >= 30 and rng.random() < 0.25:
             fn = float(max(1, round(fn)))  # a whole number of Hz (a user then types the pick as an integer)
         xi = float(rng.uniform(0.02, 0.05))
+        if edge is not None:
+            # the corners of the stated range, swept finely along the frequency axis: damping at its lower / upper end, the band at exactly four
+            # bandwidths, fn/fs on a grid of 1/edge[1] steps between 0.04 and 0.25 (where the extrema of the correlation function fall on the
+            # lag grid changes with fn/fs in steps of less than a percent)
+            fs = float(rng.choice([100.0, 51.2, 1000.0]))
+            nxseg = int(rng.choice([1024, 2048]))
+            xi = [0.02, 0.05, 0.0235, 0.03][edge[0] % 4]
+            fn = float((0.04 + 0.21 * (edge[0] // 4 + rng.uniform(0, 1)) / edge[1]) * fs)
         df = fs / nxseg
         bw = 2 * xi * fn
         if bw < 4 * df or fn * nxseg / 2 / fs < 30:
-            continue
+            if edge is not None:
+                nxseg, df = 4096, fs / 4096
+                if bw < 4 * df or fn * nxseg / 2 / fs < 30:
+                    return None
+            else:
+                continue
         freq = np.arange(nxseg // 2 + 1) * df
         bell = 1 / ((fn**2 - freq**2) ** 2 + (2 * xi * fn * freq) ** 2)
         phi = rng.standard_normal(nch)
@@ -59,7 +73,9 @@ def draw(rng, nxs=(1024, 2048, 4096, 8192)):
         S = S + (W @ W.T)[:, :, None] * 1e-9 * np.max(S)
         DF2 = float(rng.uniform(4, 10) * bw)
         draw.wide = False
-        if rng.random() < 0.2:
+        if edge is not None:
+            DF2 = float([4.0, 4.0, 4.7, 5.0][edge[0] % 4] * bw)
+        elif rng.random() < 0.2:
             # "at least four bandwidths" has no upper end: a generous band (the documented default is 1 Hz, whatever the mode) reaches below
             # 0 Hz and beyond Nyquist, where the axis simply ends
             DF2 = float(rng.uniform(1.0, 4.0) * fn)
@@ -203,8 +219,26 @@ def run_classes(ctx, rng):
     ctx.nontrivial(("cls", round(fn / fs, 3), round(xi, 3), nxseg, nch))
 
 
+def run_edge(ctx, rng, case):
+    from pyoma2.functions import fdd
+
+    d = draw(rng, edge=case["edge"])
+    if d is None:
+        ctx.not_judged("edge sweep: this corner is outside the range at every segment length tried")
+        return
+    nxseg, fs, nch, fn, xi, df, bw, freq, phi, S, DF1, DF2 = d
+    info = f"[edge sweep nxseg={nxseg} fs={fs:.4g} fn/fs={fn/fs:.4f} xi={xi:.4f} bw/df={bw/df:.1f} DF2/bw={DF2/bw:.1f} nch={nch}]"
+    for method in ("EFDD", "FSDD"):
+        Fn, Xi, Phi, _ = fdd.EFDD_mpe(S, freq, 1 / fs, [fn], "per", method=method, DF1=DF1, DF2=DF2)
+        judge(ctx, f"truth@EFDD_mpe({method})", f"{method}_edge", Fn, Xi, Phi, fn, xi, phi, info)
+    ctx.state("edge sweep: damping 2 % / 5 %, band of exactly four bandwidths")
+    ctx.nontrivial(("edge", case["edge"][0]))
+
+
 def run_case(ctx, case):
     if case["cls"] == "plumbing":
         return plumbing.run_case(ctx, case, gen.rng_of(case), PLUMB_FIELDS)
     rng = gen.rng_of(case)
+    if case["cls"] == "edge_sweep":
+        return run_edge(ctx, rng, case)
     {"function": run_function, "classes": run_classes, "reused_buffer": run_reused_buffer}[case["cls"]](ctx, rng)
